@@ -241,6 +241,13 @@ def synthetic_model_a64(rng):
     for key in ("load_throughput_multiplier", "store_throughput_multiplier"):
         if key in m:
             m[key] = {k: float(v) for k, v in m[key].items()}
+    if rng.random() < 0.75:
+        # no missing register-type keys (a missing key is a KeyError of `assign_tp_lt` that ends the whole run: kept for a quarter)
+        for t in ["w", "x", "b", "h", "s", "d", "q", "v", "z", "p"]:
+            m["load_latency"].setdefault(t, float(rng.choice([4.0, 5.0, 6.0])))
+            for key in ("load_throughput_multiplier", "store_throughput_multiplier"):
+                if key in m:
+                    m[key].setdefault(t, float(rng.choice([1.0, 2.0, 0.5])))
     voc = []
     for name, sigs in A64_VOCAB.items():
         if rng.random() < 0.15:
